@@ -415,7 +415,7 @@ pub fn property() -> Property {
             Box::new(GenPart {
                 name: "random-interleavings",
                 rule: "see property rule",
-                cases: (50_000, 3_000_000),
+                cases: (600_000, 3_000_000),
                 strategy: gen_strategy,
                 check: check_scenario,
                 required_classes: &["interleaved", "stray-aliases-open-slot", "first-fragment-preempts-open-train"],
